@@ -28,7 +28,7 @@ Definition validated_field_name (s : text) : option text :=
 Inductive pyname := PnOk (n : text) | PnNameError | PnTokenError | PnOut.
 Definition validated_python_name (value : text) : pyname :=
   match generated_tokens (strip value) with
-  | LTokenError => PnTokenError
+  | LTokenError => PnNameError          (* TokenError / IndentationError are reported as NameError *)
   | LOutOfDomain => PnOut
   | LOk [] => PnOut
   | LOk (t :: rest) =>
@@ -245,7 +245,7 @@ Definition build_check (ctype rule : text) (names : list text) : ckres :=
   | [] => CkInterface                                      (* "field names must be specified before check" *)
   | _ =>
       match generated_tokens rule with
-      | LTokenError => CkLeak
+      | LTokenError => CkInterface        (* "rule must be a sequence of valid tokens" *)
       | LOutOfDomain => CkOut
       | LOk ts =>
           if text_eqb ctype (txt "IsUnique") then
